@@ -32,7 +32,7 @@ INV = ['CallbacksOnce', 'ResolvedHasCallback', 'CacheExact', 'LostOnlyIfReal',
        'NoFalseTimeout', 'SoftOnce', 'TimeoutCallbackOnce', 'TimeoutCallbackArgs', 'NeverAbove',
        'DistinctIdx', 'QuotaRespected', 'SemBounded', 'SlotsConserved', 'InFlightBound',
        'RestartBudget', 'LostNotLate', 'HardWithinScan', 'LostOutcomeReal']
-PROPS = ['OutcomeStable', 'OwnOutcome', 'LateIgnored', 'LostNotEarly', 'LostMarkRight',
+PROPS = ['OutcomeStable', 'OwnOutcome', 'LateIgnored', 'RevokedIsTerminated', 'LostNotEarly', 'LostMarkRight',
          'VictimGone', 'SoftOnlyIfDue', 'SoftSignalMatchesCallback', 'SoftToRunner', 'HardDelivered',
          'SoftDelivered', 'SnapFresh',
          'SizeAfterMaintain', 'CleanExitsFree', 'NoForkOnRaise', 'AckResetsBudget']
@@ -61,7 +61,7 @@ class Maker:
 # formulas per property
 FORMULAS = {
     'C01': (['CallbacksOnce', 'ResolvedHasCallback', 'CacheExact', 'AckBeforeResult', 'QuietResolved'],
-            ['OutcomeStable', 'OwnOutcome', 'LateIgnored']),
+            ['OutcomeStable', 'OwnOutcome', 'LateIgnored', 'RevokedIsTerminated']),
     'C04': (['LostOnlyIfReal', 'LostNotLate', 'LostOutcomeReal', 'QuietResolved'],
             ['LostMarkRight', 'LostNotEarly', 'SizeAfterMaintain', 'OwnOutcome']),
     'C05': (['NoFalseTimeout', 'HardWithinScan', 'TimeoutCallbackOnce', 'TimeoutCallbackArgs'],
@@ -70,7 +70,8 @@ FORMULAS = {
             ['SoftOnlyIfDue', 'SoftSignalMatchesCallback', 'SoftToRunner', 'SoftDelivered', 'SnapFresh']),
     'C09': (['NeverAbove', 'DistinctIdx', 'QuotaRespected', 'LostOutcomeReal'],
             ['SizeAfterMaintain', 'CleanExitsFree', 'NoForkOnRaise']),
-    'C10': (['SemBounded', 'SlotsConserved', 'InFlightBound'], []),
+    'C10': (['SemBounded', 'SlotsConserved', 'InFlightBound'],
+            ['VictimGone']),     # the slot of a job that hit its hard limit comes back with its worker's replacement
     'C11': (['RestartBudget'], ['CleanExitsFree', 'NoForkOnRaise', 'AckResetsBudget']),
 }
 
@@ -115,6 +116,22 @@ SCEN = {
                        UserCalls=['Discard', 'TerminateJob', 'Close'])],
             walks=cfg(NJobs=3, Procs=2, MaxPid=6, MaxTime=4, Statuses=[-9, 1], UserCalls=U_ALL,
                       HookPause=True))),
+    # terminate_job() with two workers: the revoked worker is not always the first of the list, and
+    # another worker may die before the same supervision pass
+    'revoke': dict(
+        serves=['C01'],
+        quick=dict(
+            wide=cfg(NJobs=2, Procs=2, MaxPid=4, MaxTime=0, Statuses=[-9], Results=['ok'], PutLocks=False,
+                     UserCalls=['TerminateJob']),
+            small=[],
+            walks=cfg(NJobs=2, Procs=2, MaxPid=5, MaxTime=2, Statuses=[-9], Results=['ok'], PutLocks=False,
+                      UserCalls=['TerminateJob'])),
+        thorough=dict(
+            wide=cfg(NJobs=2, Procs=2, MaxPid=4, MaxTime=1, Statuses=[-9], Results=['ok'], PutLocks=False,
+                     UserCalls=['TerminateJob']),
+            small=[],
+            walks=cfg(NJobs=3, Procs=3, MaxPid=7, MaxTime=3, Statuses=[-9, 1], Results=['ok'], PutLocks=False,
+                      UserCalls=['TerminateJob']))),
     'limits': dict(
         serves=['C05', 'C06', 'C01', 'C10'],
         quick=dict(
